@@ -8,8 +8,8 @@ import CopVerif.Model.VineFlow
 
   * `fit TREES` → `ok <m> (<ne> (SRC SRC)*)*` with `SRC = c<j>` (`u_matrix[:, j]`) or
     `u<parent>.<side>` (`prev.edges[parent].U[side]`), or `err <Fail>`.
-  * `need TREES` → `ok <m> (<ne> (<flowOK 0|1> NEED NEED)*)*`: per edge whether the silent hypothesis
-    holds, and the slots a correct vine needs (`c<j>`, `u<parent>.<side>`, `?`).
+  * `need TREES` → `ok <m> (<ne> (<flowOK 0|1> <sortedOK 0|1> NEED NEED)*)*`: per edge whether the silent
+    hypothesis holds, whether the parents are in `sort_edge` order, and the slots a correct vine needs (`c<j>`, `u<parent>.<side>`, `?`).
   * `lik TREES` → `ok <m> (<ne> (READ READ)*)*` with `READ = i<col>` (input column) |
     `w<row>.<col>` (cell written by the previous tree) | `x<row>.<col>` (never written: ⊥), or
     `err <Fail>`.
@@ -88,14 +88,14 @@ def levels {β : Type} (f : β → String) (ls : List (List β)) : String :=
 /-- per edge: `flowOK` and the needed slots (first tree: the columns). -/
 def needLevel (first : Bool) (prev : Tree) (t : Tree) : List String :=
   t.map fun e =>
-    if first then s!"1 c{e.L} c{e.R}"
+    if first then s!"1 1 c{e.L} c{e.R}"
     else match e.parents with
       | some (i0, i1) =>
         match prev[i0]?, prev[i1]? with
         | some p0, some p1 =>
-          s!"{b01 (flowOK e p0 p1)} {showNeed (needSlot p0 p1 i0 i1 e.L)} {showNeed (needSlot p0 p1 i0 i1 e.R)}"
-        | _, _ => "0 ? ?"
-      | none => "0 ? ?"
+          s!"{b01 (flowOK e p0 p1)} {b01 (sortedOK p0 p1)} {showNeed (needSlot p0 p1 i0 i1 e.L)} {showNeed (needSlot p0 p1 i0 i1 e.R)}"
+        | _, _ => "0 0 ? ?"
+      | none => "0 0 ? ?"
 
 def needAll : Bool → Tree → List Tree → List (List String)
   | _, _, [] => []
